@@ -305,8 +305,15 @@ SumSeq(sq, n, F(_)) ==
 PureMove(B, T, v) ==
   /\ B.veh[v].act \in Moving /\ T.veh[v].act = B.veh[v].act /\ T.veh[v].tgt = B.veh[v].tgt /\ B.veh[v].rn > 0
 
-C06_Move(B, T, v, dt) ==
+\* `now`: <<>> or, per link of the route before, <<travel time in ms, in whole seconds>> at the speeds the road network
+\* reports in this step (logged when they differ from the speeds stored in the route): the speeds that count
+C06_Move(B, T, v, dt, now) ==
   LET R0 == B.veh[v].rt  R1 == T.veh[v].rt
+      TtS(i)  == IF now # <<>> /\ ~Degenerate(R0[i]) THEN now[i][2] ELSE LTtS(R0[i])
+      TtMs(i) == IF now # <<>> /\ ~Degenerate(R0[i]) THEN now[i][1] ELSE LTtMs(R0[i])
+      SumIdx(n, F(_)) == LET RECURSIVE Go(_)
+                             Go(i) == IF i = 0 THEN 0 ELSE F(i) + Go(i - 1)
+                         IN Go(n)
       k  == Len(R0) - Len(R1)
       split == R1 # <<>> /\ k >= 0 /\ k < Len(R0) /\ LStart(R1[1]) # LStart(R0[k + 1])
       dOdo == T.veh[v].odo - B.veh[v].odo
@@ -329,8 +336,14 @@ C06_Move(B, T, v, dt) ==
   \cup (IF T.veh[v].pos # (IF R1 # <<>> THEN LStart(R1[1]) ELSE LEnd(R0[Len(R0)]))
         THEN {V("C06", "position_at_junction", a, v)} ELSE {})
      \* links are entered only while time remains, each charged its whole-second travel time
-  \cup (IF SumSeq(R0, k, LTtS) > dt THEN {V("C06", "no_faster_than_links_allow", a, v)} ELSE {})
-  \cup (IF SumSeq(R0, k, LTtMs) > 1000 * (dt + k) THEN {V("C06", "no_faster_than_links_allow", "exact_time", v)} ELSE {})
+  \cup (IF SumIdx(k, TtS) > dt THEN {V("C06", "no_faster_than_links_allow", a, v)} ELSE {})
+  \cup (IF SumIdx(k, TtMs) > 1000 * (dt + k) THEN {V("C06", "no_faster_than_links_allow", "exact_time", v)} ELSE {})
+     \* ... nor further INTO the link it stops in than the time left allows at that link's speed (2 % + 3 m + 2 s for the
+     \* cell grid and the whole-second rounding)
+  \cup (IF split /\ TtS(k + 1) > 0 /\ TtS(k + 1) < 100000 /\ dOdo - SumSeq(R0, k, LDist) < 20000 /\ dt < 20000    \* 32-bit products
+           /\ (dOdo - SumSeq(R0, k, LDist)) * TtS(k + 1)
+                > ((LDist(R0[k + 1]) * (dt - SumIdx(k, TtS) + 2)) \div 100) * 102 + 3 * TtS(k + 1) + 102
+        THEN {V("C06", "no_faster_than_links_allow", "within_link", v)} ELSE {})
      \* odometer: the links driven entirely, plus at most the split link
   \cup (IF dOdo < SumSeq(R0, k, LDist) - (k + 2)
            \/ dOdo > SumSeq(R0, IF split THEN k + 1 ELSE k, LDist) + (k + 3)
